@@ -81,9 +81,9 @@ class IOEngine:
         self.run.log('recorded %d executions, %d events, %d with observable mismatches' % (self.executions, self.events, len(mismatches)))
         return traces, mismatches
 
-    def validate(self, trace, name, invs=IO_INVS):
+    def validate(self, trace, name, invs=IO_INVS, module='TraceIO', cfg=None):
         """TLC trace validation.  Returns dict(ok, inv, rejected_at, event, excerpt)."""
-        r = self.run.tlc('TraceIO', TRACE_CFG % ' '.join(invs), name, workers=1, timeout=1200,
+        r = self.run.tlc(module, cfg or (TRACE_CFG % ' '.join(invs)), name, workers=1, timeout=1200,
                          java_opts='-Xss1g -Dtlc2.tool.queue.IStateQueue=StateDeque',
                          env_extra={'TRACE': trace}, heap='6g')
         self.tlc_states += r['distinct']
